@@ -35,6 +35,14 @@ Round-3 families (EXTENDING.md), every one an additional set of configurations w
   cref       BatchEnsemble.set_reference mid-stream under ConfirmedElection with longer waits
   labels     y_true / y_pred as bools, numpy ints, 1-element arrays / lists (stream) and label arrays (batch)
   shared     two ensembles sharing ONE (stateless) election object, driven with different data
+
+Round 3b, family ``long`` (ids ``<S|B>-x-long-...``): deviation-bounded LONG histories under ConfirmedElection with waiting
+times 0 ... 12.  A default history on which nothing (or one level shift, or a standing warning) happens, and every choice of
+<= k positions replaced by every alternative event (a pulse in the column of ONE member, reset(), set_reference) -- so that
+isolated alarms of different members occur at every pair of distances, closer and farther apart than the waiting time, with
+the quiet updates in between on which nothing but the election's waiting counters moves.  Same oracle; whatever the
+ensemble exposes is read defensively (a missing / None / non-integer ``wait_period_counters``, a property that raises) and
+reported as a violation, never as a harness crash.
 """
 import copy
 import functools
@@ -44,7 +52,7 @@ import os
 import numpy as np
 import pandas as pd
 
-from menelaus.change_detection import ADWIN, PageHinkley
+from menelaus.change_detection import ADWIN, CUSUM, PageHinkley
 from menelaus.concept_drift import DDM, LinearFourRates
 from menelaus.data_drift import CDBD, HDDDM, NNDVI, KdqTreeBatch, KdqTreeStreaming
 from menelaus.ensemble import BatchEnsemble, StreamingEnsemble
@@ -52,7 +60,7 @@ from menelaus.ensemble import BatchEnsemble, StreamingEnsemble
 from checks.c13 import TAG, make_election
 from mc import rng
 from mc.canon import canon
-from mc.explorer import HarnessError, System, Violation, jsonable
+from mc.explorer import HarnessError, System, Violation, dev_split, jsonable
 from models import election as M
 
 PROPERTY = "C12"
@@ -87,6 +95,12 @@ FACTORY.update({
     "cdbd2": lambda: CDBD(detect_batch=1, statistic="stdev", significance=0.5, subsets=2),
     "hdddm_b": FACTORY["hdddm"],
 })
+# round 3b (family "long"): members that stay silent on a constant stream and answer an isolated pulse / a level shift
+FACTORY.update({
+    "cusum": lambda: CUSUM(target=0.0, sd_hat=1.0, burn_in=0, delta=0.005, threshold=2, direction=None),
+    "ph3": lambda: PageHinkley(delta=0.01, threshold=2.0, burn_in=3),
+    "ddmw": lambda: DDM(n_threshold=4, warning_scale=0.5, drift_scale=1.5),  # warns for ever on alternating outcomes
+})
 STOCHASTIC = {"kdq", "lfr", "kdqb", "hdddm", "hdddm2", "nndvi", "cdbd", "kdq_b", "kdqb_b", "cdbd2", "hdddm_b"}
 
 # stream menu: (row of three features, y_true, y_pred)
@@ -101,6 +115,19 @@ BATCHES = [
     [[8.0, 1.0, 0.0], [9.0, 0.0, 1.0], [7.0, 3.0, 1.0], [9.0, 2.0, 0.0], [8.0, 2.0, 1.0]],
     [[1.0, 9.0, 5.0], [0.0, 7.0, 6.0], [3.0, 8.0, 5.0], [2.0, 9.0, 7.0]],
 ]
+# family "long": a constant stream, isolated pulses in ONE column each, the same on a shifted level of column 0, and a
+# wrong prediction; a configuration of the family carries its menu in cfg["rows"] = "long"
+LONG_ROWS = [
+    ([0.0, 0.0, 0.0], 1, 1),  # 0 quiet
+    ([5.0, 0.0, 0.0], 1, 1),  # 1 pulse in column 0
+    ([0.0, 5.0, 0.0], 1, 1),  # 2 pulse in column 1
+    ([0.0, 0.0, 5.0], 1, 1),  # 3 pulse in column 2
+    ([3.0, 0.0, 0.0], 1, 1),  # 4 column 0 on its shifted level
+    ([3.0, 5.0, 0.0], 1, 1),  # 5 shifted level + pulse in column 1
+    ([3.0, 0.0, 5.0], 1, 1),  # 6 shifted level + pulse in column 2
+    ([0.0, 0.0, 0.0], 1, 0),  # 7 quiet, wrong prediction
+]
+ROW_MENUS = {None: ROWS, "long": LONG_ROWS}
 FIRST_REFS = (0, 2)
 LATER_REF = 2
 
@@ -297,6 +324,18 @@ def _attr_diff(a, b):
     return bad
 
 
+def _read(owner, what, fn):
+    """Read one public observable of the ensemble; an exception here is the ensemble's, not the harness's."""
+    try:
+        return fn()
+    except Exception as e:  # noqa: BLE001
+        raise Violation(
+            "ensemble-observable",
+            "%s: reading %s raised %r" % (owner, what, e),
+            expected="readable", observed=repr(e), sig="ensemble-observable:%s" % what,
+        )
+
+
 def _short(o, n=160):
     s = repr(o)
     return s if len(s) <= n else s[:n] + "..."
@@ -343,6 +382,7 @@ class EnsembleSys(System):
             "updates": 0,
             "since": 0,
             "prev": {k: None for k in members},
+            "expired_before": False,
             "key": None,
             "digests": {k: canon(t) for k, t in twins.items()},
         })
@@ -360,8 +400,8 @@ class EnsembleSys(System):
     # -- helpers
     def _counters(self, ens):
         if self.batch:
-            return int(ens.total_batches), int(ens.batches_since_reset)
-        return int(ens.total_samples), int(ens.samples_since_reset)
+            return _read(self.name, "total_batches / batches_since_reset", lambda: (int(ens.total_batches), int(ens.batches_since_reset)))
+        return _read(self.name, "total_samples / samples_since_reset", lambda: (int(ens.total_samples), int(ens.samples_since_reset)))
 
     def _call_both(self, cfg, state, ev, pos, ctx, on_ens, on_twin, what):
         """Run the event on the ensemble, then on every twin alone."""
@@ -432,8 +472,8 @@ class EnsembleSys(System):
     def _views(self, state):
         ens, twins = state["ens"], state["twins"]
         exp_states = {k: tw.drift_state for k, tw in twins.items()}
-        got_states = ens.drift_states
-        if got_states != exp_states or not isinstance(got_states, dict):
+        got_states = _read(self.name, "drift_states", lambda: ens.drift_states)
+        if not isinstance(got_states, dict) or got_states != exp_states:
             raise Violation(
                 "drift_states",
                 "%s.drift_states %r, members alone report %r" % (self.name, got_states, exp_states),
@@ -441,7 +481,7 @@ class EnsembleSys(System):
                 observed=got_states,
             )
         exp_recs = {k: jsonable(tw.retraining_recs) for k, tw in twins.items() if hasattr(tw, "retraining_recs")}
-        got = ens.retraining_recs
+        got = _read(self.name, "retraining_recs", lambda: ens.retraining_recs)
         got_recs = {k: jsonable(v) for k, v in got.items()} if isinstance(got, dict) else got
         if got_recs != exp_recs:
             raise Violation(
@@ -490,7 +530,7 @@ class EnsembleSys(System):
             if self.batch:
                 rows, y, p = BATCHES[ev[1]], None, None
             else:
-                r, y, p = ROWS[ev[1]]
+                r, y, p = ROW_MENUS[cfg.get("rows")][ev[1]]
                 rows = [r]
             X = make_data(rows, cont)
             lab = cfg.get("labels")
@@ -508,8 +548,8 @@ class EnsembleSys(System):
             digests = self._compare_members(cfg, state, ev, "update")
             states, recs = self._views(state)
             exp = state["model"].step([states[k] for k in twins])
-            got = ens.drift_state
-            if got != exp["verdict"] or not (got is None or type(got) is str):
+            got = _read(self.name, "drift_state", lambda: ens.drift_state)
+            if not (got is None or type(got) is str) or got != exp["verdict"]:
                 raise Violation(
                     "ensemble-verdict",
                     "%s with %s%r: drift_state %r after update, the election applied to the members %r (insertion order) gives %r"
@@ -518,14 +558,22 @@ class EnsembleSys(System):
                     observed=got,
                     sig="ensemble-verdict:%s" % ekind,
                 )
-            if exp["counters"] is not None and list(ens.election.wait_period_counters) != exp["counters"]:
-                raise Violation(
-                    "election-counters",
-                    "%s: ConfirmedElection counters %r after update, one evaluation per update gives %r"
-                    % (self.name, ens.election.wait_period_counters, exp["counters"]),
-                    expected=exp["counters"],
-                    observed=list(ens.election.wait_period_counters),
-                )
+            if exp["counters"] is not None:
+                # read defensively: an ensemble that did not consult its election leaves None (or a stale list) here, and
+                # that must be a verdict about the code under test, never a crash of the harness
+                raw = getattr(ens.election, "wait_period_counters", None)
+                try:
+                    seen_counters = [int(c) for c in raw]
+                except Exception:  # noqa: BLE001 - None / not a sequence of integers
+                    seen_counters = None
+                if seen_counters != exp["counters"]:
+                    raise Violation(
+                        "election-counters",
+                        "%s: ConfirmedElection%r counters %r after update %d (members %r), one evaluation of the election per "
+                        "update gives %r" % (self.name, cfg["election"]["params"], raw, state["updates"], states, exp["counters"]),
+                        expected=exp["counters"],
+                        observed=jsonable(raw),
+                    )
             tot, since = self._own_counters(state, "update")
             self._bookkeeping(cfg, state, ctx, states, got, exp)
             obs = {"verdict": got, "members": states, "recs": recs, "total": tot, "since": since}
@@ -711,6 +759,32 @@ class EnsembleSys(System):
             ctx.count("confirmed_waiting_vote_in_ensemble")
         if exp.get("warned_while_waiting"):
             ctx.count("confirmed_member_warning_while_waiting_in_ensemble")
+        if ekind == "Confirmed":
+            # round 3b: the updates on which "nothing happens" are the ones that move a ConfirmedElection
+            wait = cfg["election"]["params"]["wait_time"]
+            quiet = all(v is None for v in vals)
+            pre = "long_" if fam == "long" else ""
+            if quiet and exp.get("waiting_votes"):
+                ctx.count(pre + "confirmed_quiet_update_while_a_member_waits")
+                if got == "drift":
+                    ctx.count(pre + "confirmed_drift_on_a_quiet_update")
+            if quiet and not exp.get("waiting_votes"):
+                ctx.count(pre + "confirmed_quiet_update_nobody_waiting")
+            if exp.get("expired") and wait > 0:
+                ctx.count(pre + "confirmed_wait_ran_out")
+            if exp.get("alarms") and exp.get("waiting_votes") and got == "drift":
+                ctx.count(pre + "confirmed_alarm_joins_a_waiting_member")
+            if exp.get("alarms") and state["expired_before"] and not exp.get("waiting_votes"):
+                ctx.count(pre + "confirmed_alarm_after_an_earlier_wait_ran_out")
+                if got is None:
+                    ctx.count(pre + "confirmed_late_alarm_not_confirmed")
+            if exp.get("counters") and max(exp["counters"]) >= 6:
+                ctx.count(pre + "confirmed_member_waiting_for_5_or_more_updates")
+            if fam == "long":
+                ctx.count("long_wait_time_%d_updates" % wait)
+                ctx.count("long_history_%s_updates" % cfg.get("history"))
+            if exp.get("expired") and wait > 0:
+                state["expired_before"] = True
 
 
 SYSTEMS = {"Stream": EnsembleSys("Stream", False), "Batch": EnsembleSys("Batch", True)}
@@ -946,10 +1020,97 @@ def xdepth(tier, system, cfg):
     return base + cfg.get("depth_delta", 0)
 
 
-COST = {"adwin": 0.1, "ddm": 0.05, "ph": 0.05, "kdq": 3.0, "lfr": 2.0, "kdqb": 6.0, "hdddm": 3.0, "hdddm2": 2.0, "nndvi": 2.0, "cdbd": 1.5}
+# ---------------------------------------------------------------- round 3b: family "long"
+def CE(sensitivity, wait_time):
+    return ("Confirmed", {"sensitivity": sensitivity, "wait_time": wait_time})
+
+
+LONG = {
+    # a configuration of the family names its plan: L = length of the default history, k = number of positions replaced
+    # (every choice of <= k positions x every alternative event is executed)
+    "quick": {"pairs": (10, 2), "far": (24, 1), "batch": (8, 2)},
+    "thorough": {"pairs": (16, 2), "far": (36, 1), "batch": (11, 2)},
+}
+U = lambda k: ["u", k]  # noqa: E731
+RST = ["reset"]
+
+
+def long_configs(system):
+    """Deviation-bounded LONG histories: a default history on which (almost) nothing happens, with every choice of <= k
+    positions replaced by every alternative event -- isolated alarms of different members at every pair of distances,
+    below and above the waiting time of the ConfirmedElection, with the quiet updates in between."""
+    S, B = "Stream", "Batch"
+    three = ["ph", "adwin", "cusum"]
+    own = {"ph": [0], "adwin": [1], "cusum": [2]}
+    two = ["cusum", "ph3"]
+    two_sel = {"cusum": [1], "ph3": [2]}
+    out = []
+
+    def add(system, tag, members, sel, el, cont, plan, history, menu):
+        p = el[1]
+        tag = "%s%s" % (tag, "%d.%d" % (p["sensitivity"], p["wait_time"]) if el[0] == "Confirmed" else "")
+        out.append(_x(system, "long", tag, members, sel, el, cont, rows="long" if system == S else None, plan=plan,
+                      history=history, menu=menu))
+
+    if system == S:
+        # flat: a constant stream; alternatives: a pulse in the column of ONE member, reset().  plan "pairs": two
+        # replaced positions = two isolated alarms (same or different members) at every pair of positions
+        add(S, "flat", three, own, CE(2, 3), ND, "pairs", "flat", [U(1), U(2), U(3), RST])
+        add(S, "two", two, two_sel, CE(2, 0), ND, "pairs", "flat", [U(2), U(3), RST])
+        add(S, "two", two, two_sel, CE(1, 5), ND, "pairs", "flat", [U(2), U(3), RST])
+        add(S, "two", two, two_sel, CE(2, 6), DA, "pairs", "flat", [U(2), U(3), RST])
+        add(S, "two", two, two_sel, CE(3, 4), ND, "pairs", "flat", [U(2), U(3), RST])  # sensitivity above the number of members
+        # plan "far": one replaced position in a much longer history, waiting times beyond ten updates
+        add(S, "far", three, own, CE(1, 12), ND, "far", "flat", [U(1), U(2), U(3), RST])
+        # shift: column 0 moves to another level for good at one third of the history (its member alarms there and
+        # re-learns); alternatives: a pulse in the column of one of the OTHER members, reset()
+        shift_menu = {"flat": [U(2), U(3), RST], "shifted": [U(5), U(6), RST]}
+        add(S, "shift", three, own, CE(2, 4), ND, "far", "shift", shift_menu)
+        add(S, "shift", three, {"adwin": [0], "ph": [1], "cusum": [2]}, CE(2, 8), ND, "far", "shift", shift_menu)
+        add(S, "shift", three, {"cusum": [0], "adwin": [1], "ph": [2]}, CE(3, 11), ND, "far", "shift", shift_menu)
+        # warn: a member that reports "warning" on every update of the default history (alternating outcomes)
+        add(S, "warn", ["ddmw", "ph", "cusum"], {"ph": [0], "cusum": [1]}, CE(2, 5), ND, "far", "warn", [U(0), U(7), U(1), U(2), RST])
+        # a stateless election over the same long histories (the ensemble's own counters, members restarting themselves)
+        add(S, "flatma", three, own, MA1, ND, "far", "flat", [U(1), U(2), U(3), RST])
+    else:
+        later = [U(1), U(2), RST, ["ref", LATER_REF]]
+        add(B, "hdm", ["hdddm2", "cdbd"], {"cdbd": [1]}, CE(2, 4), ND, "batch", "batch", later)
+        add(B, "hdm", ["hdddm", "cdbd2"], {"hdddm": [0, 2], "cdbd2": [1]}, CE(1, 6), DA, "batch", "batch", later)
+    return out
+
+
+def _long_tasks(tier):
+    out = []
+    for sysn in ("Stream", "Batch"):
+        for cfg in long_configs(sysn):
+            L, k = LONG[tier][cfg["plan"]]
+            hist, menu = cfg["history"], cfg["menu"]
+            task = {"system": sysn, "cfg": cfg, "mode": "dev", "k": k, "label": "%s|%s|%s%d.%d" % (sysn, cfg["id"], hist, L, k),
+                    "cost": sum(COST[m] for m in cfg["members"]) * L ** k, "validate_every": 97 if sysn == "Stream" else 53}
+            if hist == "flat":
+                task.update(default=[U(0)] * L, menu=menu)
+            elif hist == "shift":
+                a = L // 3
+                task.update(default=[U(0)] * a + [U(4)] * (L - a), menu=[menu["flat"]] * a + [menu["shifted"]] * (L - a), menu_per_pos=True)
+            elif hist == "warn":
+                task.update(default=[U(0) if i % 2 == 0 else U(7) for i in range(L)], menu=menu)
+            elif hist == "batch":
+                task.update(default=[["ref", 0]] + [U(0)] * (L - 1), menu=[[["ref", 2]]] + [menu] * (L - 1), menu_per_pos=True)
+            else:
+                raise HarnessError("HARNESS-CRASH: unknown long history %r" % hist)
+            # the "pairs" / "batch" plans are split by their first replaced position (mc.explorer.dev_split: same set of
+            # histories); the others are a few seconds each and stay whole (every split part re-runs its prefix and one fresh replay)
+            out += dev_split(task) if cfg["plan"] in ("pairs", "batch") else [task]
+    return out
+
+
+COST = {"adwin": 0.1, "ddm": 0.05, "ph": 0.05, "kdq": 3.0, "lfr": 2.0, "kdqb": 6.0, "hdddm": 3.0, "hdddm2": 2.0, "nndvi": 2.0, "cdbd": 1.5,
+        "cusum": 0.05, "ph3": 0.05, "ddmw": 0.05}
 for _k in list(FACTORY):
     COST.setdefault(_k, COST.get(_k.rstrip("2").replace("_b", ""), 1.0))
-ROUND3 = os.environ.get("VERIF_ROUND3", "")  # "off" / "only": pre-round-3 tasks / round-3 families alone (mutant triage)
+# mutant triage: "off" = pre-round-3 tasks, "only" = round-3 families alone, "nolong" = everything but the round-3b family
+# "long", "long" = that family alone
+ROUND3 = os.environ.get("VERIF_ROUND3", "")
 
 
 def _stream_tasks(cfg, depth):
@@ -993,6 +1154,8 @@ def _batch_tasks(cfg, depth):
 
 def tasks(tier, seed):
     out = []
+    if ROUND3 == "long":
+        return _long_tasks(tier)
     if ROUND3 != "only":
         for cfg in configs(tier, "Stream"):
             out += _stream_tasks(cfg, depth_of(tier, "Stream", cfg))
@@ -1003,6 +1166,8 @@ def tasks(tier, seed):
             out += _stream_tasks(cfg, xdepth(tier, "Stream", cfg))
         for cfg in extra_configs("Batch"):
             out += _batch_tasks(cfg, xdepth(tier, "Batch", cfg))
+        if ROUND3 != "nolong":
+            out += _long_tasks(tier)
     return out
 
 
@@ -1049,6 +1214,17 @@ REQUIRED_R3 = (
        "single_member_updates", "single_member_ensemble_differs_from_its_member", "reversed_order_subset_updates",
        "shared_election_partner_updates", "shared_election_ensembles_disagree", "shared_election_partner_drift"]
 )
+# round 3b, family "long": the stream members of the family are deterministic (PageHinkley, ADWIN, CUSUM with given
+# target, DDM), so these cannot depend on VERIF_SEED; the two batch configurations only add to them
+REQUIRED_LONG = (
+    ["family_long_updates", "family_long_member_alarms", "family_long_ensemble_alarms"]
+    + ["long_history_%s_updates" % h for h in ("flat", "shift", "warn", "batch")]
+    + ["long_confirmed_" + c for c in (
+        "quiet_update_while_a_member_waits", "quiet_update_nobody_waiting", "drift_on_a_quiet_update", "wait_ran_out",
+        "alarm_joins_a_waiting_member", "alarm_after_an_earlier_wait_ran_out", "late_alarm_not_confirmed",
+        "member_waiting_for_5_or_more_updates")]
+    + ["long_wait_time_0_updates", "member_drift_cusum", "member_drift_ph3", "member_warning_ddmw"]
+)
 _REQUIRED_BASE = REQUIRED
 
 
@@ -1056,15 +1232,20 @@ def REQUIRED(tier):  # noqa: F811 - the list above stays the pre-round-3 require
     if ROUND3 == "off":
         return list(_REQUIRED_BASE)
     if ROUND3 == "only":
-        return list(REQUIRED_R3)
-    return list(_REQUIRED_BASE) + list(REQUIRED_R3)
+        return list(REQUIRED_R3) + list(REQUIRED_LONG)
+    if ROUND3 == "long":
+        return list(REQUIRED_LONG)
+    if ROUND3 == "nolong":
+        return list(_REQUIRED_BASE) + list(REQUIRED_R3)
+    return list(_REQUIRED_BASE) + list(REQUIRED_R3) + list(REQUIRED_LONG)
 
 
 def describe(tier):
     d = DEPTH[tier]
     return {
         "rule": "every event sequence of the stated depth (prefix-shared DFS over the real ensemble, snapshots by deepcopy, "
-        "transposition on the full canonical state of members + election + counters) for every configuration; "
+        "transposition on the full canonical state of members + election + counters) for every configuration; family long: a "
+        "default history with every choice of <= k positions replaced by every alternative event (bounds.round3b_long); "
         "a history is non-trivial when some update made the ensemble or a member report warning/drift or when it "
         "contains reset()/set_reference()",
         "bounds": {
@@ -1091,6 +1272,25 @@ def describe(tier):
                 "label_styles": ["int (pre-round-3)", "bool", "npint", "npbool", "array1", "list1", "array0d", "batch_arrays", "batch_bools", "batch_columns"],
                 "shared": "second ensemble over fresh members of the same kinds, sharing the stateless election object, updated with row (k+1) mod 3 after every update(row k)",
             },
+            "round3b_long": {
+                "rule": "dev mode: the default history with every choice of <= k positions replaced by every alternative event of the "
+                "configuration's menu, all run to completion (pairs and batch plans are split by the first replaced position)",
+                "plans (L = history length, k = replaced positions)": {k: list(v) for k, v in LONG[tier].items()},
+                "stream_rows": [list(r) for r in LONG_ROWS],
+                "histories": {
+                    "flat": "update(row 0) x L",
+                    "shift": "update(row 0) x L//3 then update(row 4) for good (column 0 on another level)",
+                    "warn": "rows 0 / 7 alternating (a DDM member warns on every update)",
+                    "batch": "set_reference(b0) then update(b0) x (L-1); position 0 may be set_reference(b2) instead",
+                },
+                "configurations": [
+                    {"id": c["id"], "members": c["members"], "selectors": c["selectors"], "election": c["election"], "plan": c["plan"],
+                     "history": c["history"], "alternatives": c["menu"]}
+                    for sysn in ("Stream", "Batch") for c in long_configs(sysn)
+                ],
+                "members": "ph / adwin as above; cusum = CUSUM(target 0, sd 1, burn_in 0, threshold 2); ph3 = PageHinkley(delta .01, "
+                "threshold 2, burn_in 3); ddmw = DDM(n_threshold 4, warning .5, drift 1.5)",
+            },
         },
         "explanation": "states = distinct canonical states (members, election, counters); traces_validated_against_impl = "
         "maximal event sequences on which every member was compared with its solo twin after every event",
@@ -1108,6 +1308,11 @@ def describe(tier):
             "ensemble holds)",
             "round 3: label arguments are rebuilt for every call (ensemble and each twin get their own equal objects); batch members "
             "document y_true / y_pred as unused, so batch label arrays are arbitrary; LinearFourRates gets 0/1 int-likes only",
+            "round 3b: in the long histories at most k (2, or 1 in the longest) positions differ from the default history; a "
+            "CUSUM member whose very first sample is the pulse raises ValueError (zero variance) on the next update exactly as it "
+            "does alone -- those histories end there (member_raises_alone_too)",
+            "round 3b: wait_period_counters of a ConfirmedElection must be a list of integers equal to one evaluation of the "
+            "election per update from the very first update on (None / anything else is reported as election-counters)",
             "round 3: two ensembles share an election object only for the stateless elections (pure functions of the member list); "
             "sharing a ConfirmedElection (per-position counters) and nesting an ensemble inside an ensemble are not documented and "
             "are left out",
